@@ -204,6 +204,21 @@ static HOOK: Once = Once::new();
 /// injected executor faults, deadlock reports) and records the message.
 pub fn install_quiet_hook() {
     HOOK.call_once(|| {
+        // shuttle installs (once) a hook that prints on every panic, also on
+        // panics that are part of normal operation here; trigger that
+        // installation first, then put ours on top of the ORIGINAL hook.
+        let orig = std::panic::take_hook();
+        {
+            let mut c = shuttle::Config::new();
+            c.failure_persistence = shuttle::FailurePersistence::None;
+            let r = shuttle::Runner::new(
+                shuttle::scheduler::RoundRobinScheduler::new(1),
+                c,
+            );
+            r.run(|| {});
+        }
+        let _shuttle_hook = std::panic::take_hook();
+        std::panic::set_hook(orig);
         let prev = std::panic::take_hook();
         std::panic::set_hook(Box::new(move |info| {
             let msg = if let Some(s) = info.payload().downcast_ref::<&str>() {
@@ -750,6 +765,87 @@ impl Summary {
                         .collect()
                 })
                 .unwrap_or_default(),
+        }
+    }
+}
+
+/// A persistent shuttle runner on its own OS thread: every job is one
+/// execution under the default schedule (amortises runner / stack set-up).
+pub struct Pool {
+    tx: Option<std::sync::mpsc::Sender<Box<dyn FnOnce() + Send>>>,
+    last_failure: Arc<Mutex<Option<Failure>>>,
+    handle: Option<std::thread::JoinHandle<()>>,
+}
+
+impl Pool {
+    pub fn new() -> Self {
+        let (tx, rx) = std::sync::mpsc::channel::<Box<dyn FnOnce() + Send>>();
+        let rx = Arc::new(Mutex::new(rx));
+        let last_failure = Arc::new(Mutex::new(None));
+        let lf = last_failure.clone();
+        let handle = std::thread::Builder::new()
+            .stack_size(32 << 20)
+            .spawn(move || {
+                let rx2 = rx.clone();
+                let body = Arc::new(move || -> bool {
+                    let job = rx2.lock().unwrap().recv();
+                    match job {
+                        Ok(j) => {
+                            j();
+                            true
+                        }
+                        Err(_) => false,
+                    }
+                });
+                let on_failure = Arc::new(move |f: &Failure| -> bool {
+                    *lf.lock().unwrap() = Some(f.clone());
+                    true
+                });
+                let _ = repeat(body, on_failure);
+            })
+            .unwrap();
+        Self { tx: Some(tx), last_failure, handle: Some(handle) }
+    }
+
+    pub fn run<T: Send + 'static>(
+        &self,
+        f: impl FnOnce() -> T + Send + 'static,
+    ) -> Result<T, Failure> {
+        let (rtx, rrx) = std::sync::mpsc::channel::<T>();
+        *self.last_failure.lock().unwrap() = None;
+        self.tx
+            .as_ref()
+            .unwrap()
+            .send(Box::new(move || {
+                let r = f();
+                let _ = rtx.send(r);
+            }))
+            .expect("pool thread gone");
+        match rrx.recv() {
+            Ok(v) => Ok(v),
+            Err(_) => {
+                // the execution died; wait for the failure record
+                for _ in 0..2000 {
+                    if let Some(f) = self.last_failure.lock().unwrap().take() {
+                        return Err(f);
+                    }
+                    std::thread::sleep(Duration::from_millis(1));
+                }
+                Err(Failure {
+                    kind: FailKind::Panic,
+                    msg: "execution died without a failure record".into(),
+                    schedule: vec![],
+                })
+            }
+        }
+    }
+}
+
+impl Drop for Pool {
+    fn drop(&mut self) {
+        drop(self.tx.take());
+        if let Some(h) = self.handle.take() {
+            let _ = h.join();
         }
     }
 }
